@@ -376,21 +376,19 @@ def check_body_read(P, R):
         else:
             R.ob('C04.d', f, c, False, detail=f'{body}.{c.func.attr}() mutates or repositions the buffer while it is being filled',
                  why='seek/truncate during accumulation overwrite or pad the body (e.g. NUL padding up to Content-Length)')
-    # exactly one write of the part per iteration, before anything else can fail or skip it
-    R.ob('C04.d', f, loop, len(part_writes) == 1, text=f'{body}.write({part}) sites = {len(part_writes)}',
-         detail='' if len(part_writes) == 1 else 'each part must be written exactly once')
-    for c in part_writes:
-        wn = g.node_of_stmt(c)[0]
-        # every path from the loop's iter edge to the next iteration / exit passes the write
-        first = T.succ_by_label(head, 'iter')
-        ok = all(n is wn or g.dominates(wn, n) or n is head for n in g.reachable_from(first, avoid_nodes=[wn])
-                 if n is wn) and all(g.must_pass(s, head, [wn]) for s in first if s is not wn)
-        # simpler and stronger: the write is the first statement executed in the body
-        ok = bool(first) and all(s is wn for s in first)
-        if not ok:
-            # allow preceding statements that cannot leave the iteration (no break/continue/return/raise before it)
-            # (a path that raises before the write presents no body at all: not this property's concern)
-            ok = all(g.must_pass(s, head, [wn]) and g.must_pass(s, g.exit, [wn]) for s in first)
+    # exactly one write of the part per iteration, on every path through the loop body (several sites are fine when the paths are disjoint)
+    wnodes = [g.node_of_stmt(c)[0] for c in part_writes]
+    first = T.succ_by_label(head, 'iter')
+    twice = [(a_, b_) for a_ in wnodes for b_ in wnodes
+             if any(m_ is b_ or g.can_reach(m_, b_, avoid_nodes=[head]) for (m_, lab_) in a_.succ if lab_ != 'exc' and m_ is not head)]
+    R.ob('C04.d', f, loop, bool(part_writes) and not twice, text=f'{body}.write({part}): {len(part_writes)} site(s), at most one per pass of the loop',
+         detail='' if part_writes and not twice else (f'a pass of the loop can write the part twice (`{short(twice[0][0].ast)}` then `{short(twice[0][1].ast)}`)' if twice else
+                                                      'the part is never written'),
+         why='each part must be written exactly once')
+    if part_writes:
+        c = part_writes[0]
+        ok = bool(first) and all(s_ in wnodes or (g.must_pass(s_, head, wnodes) and g.must_pass(s_, g.exit, wnodes)) for s_ in first)
+        # (a path that raises before the write presents no body at all: not this property's concern)
         R.ob('C04.d', f, c, ok, detail='' if ok else f'a path through the loop body skips {body}.write({part})',
              why='a part that is not written is missing from the body')
         # in-order: the receiver at the write is the current buffer (same defs as at loop end) -- checked via spill pairing
